@@ -90,6 +90,13 @@ class DCcall:
     def __call__(self, *args, **kwargs):
         return (self.a, args, kwargs)
 
+@dataclasses.dataclass
+class DCcv:
+    # a class constant next to the fields (a pseudo-field: not a constructor parameter, not a member)
+    a: int
+    b: str = "x"
+    SCHEMA: typing.ClassVar[int] = 2
+
 class TDpart(TD, total=False):
     c: int
 
